@@ -1021,13 +1021,15 @@ Definition reader_row_ok (row : string * option (Z * bool * bool)) : Prop :=
 
 (* the compiler emits `- flags - 1` followed by the input number [, the output number with READ_DIRECT added]:
    for a word of the table that is read_bc fmt be rep false / read_bc fmt be rep true *)
-Theorem parse_reader_table_proof :
-  map fst reader_table = input_parser_words /\ Forall reader_row_ok reader_table /\
+Definition nbit_words_ok : Prop :=
   parse_reader (bytes "5bit->") = COk (- read_bc READ_NBIT false false false - 1, 5) /\
   parse_reader (bytes "#!31bit->") = COk (- read_bc READ_NBIT true true false - 1, 31) /\
   parse_reader (bytes "32bit->") = CUnsupported.
+
+Theorem parse_reader_table_proof :
+  map fst reader_table = input_parser_words /\ Forall reader_row_ok reader_table /\ nbit_words_ok.
 Proof.
-  split; [vm_compute; reflexivity|]. split; [|repeat split; vm_compute; reflexivity].
+  split; [vm_compute; reflexivity|]. split; [|unfold nbit_words_ok; repeat split; vm_compute; reflexivity].
   unfold reader_table. repeat (constructor; [vm_compute; reflexivity|]). constructor.
 Qed.
 
@@ -1060,7 +1062,7 @@ Example read_fixed_direct_hyps :
   bytes_ok [1; 2; 3; 4; 255; 254; 7; 0; 0; 128] /\ znth [0; 3; -32; 0; 0; -33; 0] (3 + 1) = Some 0 /\
   out_dtype p_reads 0 = Some DInt32 /\ znth (m_outs m_reads1) 0 = Some [] /\ 3 * 2 < 2 ^ 63 /\
   0 + 3 * 2 <= zlen [1; 2; 3; 4; 255; 254; 7; 0; 0; 128].
-Proof. repeat split; try reflexivity; try (vm_compute; congruence); bytes_ok_tac. Qed.
+Proof. repeat split; try (vm_compute; reflexivity); try (vm_compute; congruence); bytes_ok_tac. Qed.
 
 Example read_fixed_to_stack_hyps :
   m_frames m_reads2 = (0, 6) :: [] /\ znth (p_segs p_reads) 0 = Some [0; 3; -32; 0; 0; -33; 0] /\
@@ -1069,57 +1071,108 @@ Example read_fixed_to_stack_hyps :
   znth (e_inputs e_reads) 0 = Some [1; 2; 3; 4; 255; 254; 7; 0; 0; 128] /\ znth (m_inpos m_reads2) 0 = Some 6 /\ 0 <= 6 /\
   bytes_ok [1; 2; 3; 4; 255; 254; 7; 0; 0; 128] /\ 1 * 4 < 2 ^ 63 /\
   6 + 1 * 4 <= zlen [1; 2; 3; 4; 255; 254; 7; 0; 0; 128] /\ zlen (@nil Z) <= p_stack_max p_reads.
-Proof. repeat split; try reflexivity; try (vm_compute; congruence); bytes_ok_tac. Qed.
+Proof. repeat split; try (vm_compute; reflexivity); try (vm_compute; congruence); bytes_ok_tac. Qed.
 
 (* ---- stack overflow in the middle of a repeated read: 5 items, room for 4: the 4 first are pushed, the input
    position has advanced over all 5 *)
-Definition prog_overflow := compile 64 4 16 (bytes "input x 5 x #B-> stack"%string).
-Example read_fixed_overflow_example : exists p,
-  prog_overflow = COk p /\
-  api_run 100 true p (mkEnv [[1; 2; 3; 4; 5; 6]]) (init_machine p) = Ok (mkM [4; 3; 2; 1] [] [5] [] [(0, 4)] [] [0] true E_overflow).
-Proof. eexists. split; vm_compute; reflexivity. Qed.
+Definition mkp (seg : list Z) (outs : list (list Z * dtype)) (stack_max : Z) := mkProg 64 [seg] [] [] [[120]] outs stack_max 16.
+Definition run1 (p : prog) (input : list Z) := api_run 100 true p (mkEnv [input]) (init_machine p).
 
-(* ---- read beyond: 2 int64 from 10 bytes: nothing consumed, the count stays popped *)
-Definition prog_beyond := compile 64 16 16 (bytes "input x 2 x #q-> stack"%string).
-Example read_fixed_beyond_example : exists p,
-  prog_beyond = COk p /\
-  api_run 100 true p e_reads (init_machine p) = Ok (mkM [] [] [0] [] [(0, 4)] [] [0] true E_read_beyond) /\
-  (* a shorter read at the same place succeeds *)
-  (exists p1, compile 64 16 16 (bytes "input x 1 x #q-> stack"%string) = COk p1 /\
-     api_run 100 true p1 e_reads (init_machine p1) = Ok (mkM [504403154199544321] [] [8] [] [] [] [] true E_none)).
-Proof. eexists. split; [|split; [|eexists; split]]; vm_compute; reflexivity. Qed.
+Example read_fixed_overflow_example :
+  compile 64 4 16 (bytes "input x 5 x #B-> stack"%string) = COk (mkp [0; 5; -59; 0] [] 4) /\
+  run1 (mkp [0; 5; -59; 0] [] 4) [1; 2; 3; 4; 5; 6] = Ok (mkM [4; 3; 2; 1] [] [5] [] [(0, 4)] [] [0] true E_overflow).
+Proof. split; vm_compute; reflexivity. Qed.
 
-(* ---- negative count, missing count *)
-Example read_count_examples : exists p1 p2,
-  compile 64 16 16 (bytes "input x -1 x #b-> stack"%string) = COk p1 /\
-  api_run 100 true p1 (mkEnv [[1; 2]]) (init_machine p1) = Ok (mkM [] [] [0] [] [(0, 4)] [] [0] true E_read_beyond) /\
-  compile 64 16 16 (bytes "input x x #b-> stack"%string) = COk p2 /\
-  api_run 100 true p2 (mkEnv [[1; 2]]) (init_machine p2) = Ok (mkM [] [] [0] [] [(0, 2)] [] [0] true E_underflow) /\
-  (* with a count the same program ends without error *)
-  (exists p3, compile 64 16 16 (bytes "input x 2 x #b-> stack"%string) = COk p3 /\
-     api_run 100 true p3 (mkEnv [[1; 255]]) (init_machine p3) = Ok (mkM [-1; 1] [] [2] [] [] [] [] true E_none)).
-Proof. do 2 eexists. repeat split; try (vm_compute; reflexivity). eexists. split; vm_compute; reflexivity. Qed.
+(* ---- read beyond: 2 int64 from 10 bytes: nothing consumed, the count stays popped; 1 int64 succeeds *)
+Example read_fixed_beyond_example :
+  compile 64 16 16 (bytes "input x 2 x #q-> stack"%string) = COk (mkp [0; 2; -43; 0] [] 16) /\
+  run1 (mkp [0; 2; -43; 0] [] 16) [1; 2; 3; 4; 255; 254; 7; 0; 0; 128] = Ok (mkM [] [] [0] [] [(0, 4)] [] [0] true E_read_beyond) /\
+  compile 64 16 16 (bytes "input x 1 x #q-> stack"%string) = COk (mkp [0; 1; -43; 0] [] 16) /\
+  run1 (mkp [0; 1; -43; 0] [] 16) [1; 2; 3; 4; 255; 254; 7; 0; 0; 128] = Ok (mkM [2250696074396161] [] [8] [] [] [] [] true E_none).
+Proof. repeat split; vm_compute; reflexivity. Qed.
+
+(* ---- negative count, missing count; with a count the same program ends without error *)
+Example read_count_examples :
+  compile 64 16 16 (bytes "input x -1 x #b-> stack"%string) = COk (mkp [0; -1; -19; 0] [] 16) /\
+  run1 (mkp [0; -1; -19; 0] [] 16) [1; 2] = Ok (mkM [] [] [0] [] [(0, 4)] [] [0] true E_read_beyond) /\
+  compile 64 16 16 (bytes "input x x #b-> stack"%string) = COk (mkp [-19; 0] [] 16) /\
+  run1 (mkp [-19; 0] [] 16) [1; 2] = Ok (mkM [] [] [0] [] [(0, 2)] [] [0] true E_underflow) /\
+  compile 64 16 16 (bytes "input x 2 x #b-> stack"%string) = COk (mkp [0; 2; -19; 0] [] 16) /\
+  run1 (mkp [0; 2; -19; 0] [] 16) [1; 255] = Ok (mkM [-1; 1] [] [2] [] [] [] [] true E_none).
+Proof. repeat split; vm_compute; reflexivity. Qed.
 
 (* ---- a bool item copied into a bool output keeps its byte: `?-> y` with the byte 2 stores 2, not (bool)2 = 1.
    The general theorem therefore uses out_conv, which is cast_out except in this case (out_conv_cast). *)
-Example read_bool_direct_keeps_byte_refuted : exists p,
-  compile 64 16 16 (bytes "input x output y bool x ?-> y"%string) = COk p /\
-  api_run 100 true p (mkEnv [[2]]) (init_machine p) = Ok (mkM [] [] [1] [[2]] [] [] [] true E_none) /\
+Example read_bool_direct_keeps_byte_refuted :
+  compile 64 16 16 (bytes "input x output y bool x ?-> y"%string) = COk (mkp [-10; 0; 0] [([121], DBool)] 16) /\
+  run1 (mkp [-10; 0; 0] [([121], DBool)] 16) [2] = Ok (mkM [] [] [1] [[2]] [] [] [] true E_none) /\
   cast_out DBool (doc_decode 1 false false [2]) = 1 /\ out_conv READ_BOOL DBool (doc_decode 1 false false [2]) = 2.
-Proof. eexists. repeat split; vm_compute; reflexivity. Qed.
+Proof. repeat split; vm_compute; reflexivity. Qed.
 
 (* ---- varint / zigzag: 172 2 = 300; zigzag 3 = -2, zigzag 130 1 = 65 *)
-Definition prog_varint := compile 64 16 16 (bytes "input x output y int64 x varint-> stack 2 x #zigzag-> y"%string).
-Example read_varint_example : exists p,
-  prog_varint = COk p /\
-  api_run 100 true p (mkEnv [[172; 2; 3; 130; 1; 9]]) (init_machine p) = Ok (mkM [300] [] [5] [[65; -2]] [] [] [] true E_none) /\
+Example read_varint_example :
+  compile 64 16 16 (bytes "input x output y int64 x varint-> stack 2 x #zigzag-> y"%string)
+    = COk (mkp [-113; 0; 0; 2; -124; 0; 0] [([121], DInt64)] 16) /\
+  run1 (mkp [-113; 0; 0; 2; -124; 0; 0] [([121], DInt64)] 16) [172; 2; 3; 130; 1; 9]
+    = Ok (mkM [300] [] [5] [[65; -2]] [] [] [] true E_none) /\
+  read_bc (varint_fmt false) false false false = -113 /\ read_bc (varint_fmt true) false true true = -124 /\
   varints_doc 1 [172; 2; 3; 130; 1; 9] = ([300], 2, E_none) /\
   varints_doc 2 [3; 130; 1; 9] = ([3; 130], 3, E_none) /\ map zigzag_doc [3; 130] = [-2; 65] /\
   (* running out of input inside an item: the bytes ARE consumed *)
   varints_doc 2 [172; 130] = ([], 2, E_read_beyond) /\
-  (exists p1, compile 64 16 16 (bytes "input x x varint-> stack"%string) = COk p1 /\
-     api_run 100 true p1 (mkEnv [[172; 130]]) (init_machine p1) = Ok (mkM [] [] [2] [] [(0, 2)] [] [0] true E_read_beyond)) /\
+  compile 64 16 16 (bytes "input x x varint-> stack"%string) = COk (mkp [-113; 0] [] 16) /\
+  run1 (mkp [-113; 0] [] 16) [172; 130] = Ok (mkM [] [] [2] [] [(0, 2)] [] [0] true E_read_beyond) /\
   (* the 10th byte *)
   varint_head [255; 255; 255; 255; 255; 255; 255; 255; 255; 1] = VErr E_varint 10 /\
-  varint_head [255; 255; 255; 255; 255; 255; 255; 255; 127; 1] = VOk (2 ^ 63 - 1) 9.
-Proof. eexists. repeat split; try (vm_compute; reflexivity). eexists. split; vm_compute; reflexivity. Qed.
+  varint_head [255; 255; 255; 255; 255; 255; 255; 255; 127; 1] = VOk 9223372036854775807 9.
+Proof. repeat split; vm_compute; reflexivity. Qed.
+
+(* ================================================================== 7. Nbit-> : what is modelled, and its edges *)
+(* argument cells: input number, bit width, [output number].  Modelled: widths 1..31 (from 32 on `1 << width` is
+   undefined behaviour in the C++: Fault F_nbit; the compiler answers CUnsupported); a zero count reads nothing; the
+   first byte is read before anything is delivered, so an exhausted input is read_beyond with nothing consumed. *)
+Theorem read_nbit_edges_proof :
+  forall p e m0 which ip fr seg inp be rep dir n s bw o data pos,
+  m_frames m0 = (which, ip) :: fr -> znth (p_segs p) which = Some seg -> znth seg ip = Some inp ->
+  znth seg (ip + 1) = Some bw -> (dir = true -> znth seg (ip + 2) = Some o) ->
+  pop_count rep m0 = Some (n, s) -> 0 <= n ->
+  let F := (which, ip + (if dir then 3 else 2)) :: fr in
+  (bw < 1 \/ 31 < bw -> exec_read p e m0 (read_bc READ_NBIT be rep dir) = Fault F_nbit) /\
+  (1 <= bw <= 31 -> n = 0 ->
+   exec_read p e m0 (read_bc READ_NBIT be rep dir) = Ok (Continue, after m0 s (m_inpos m0) (m_outs m0) F (m_err m0))) /\
+  (1 <= bw <= 31 -> 1 <= n -> znth (e_inputs e) inp = Some data -> znth (m_inpos m0) inp = Some pos -> zlen data <= pos ->
+   exec_read p e m0 (read_bc READ_NBIT be rep dir) = Ok (Return, after m0 s (m_inpos m0) (m_outs m0) F E_read_beyond)).
+Proof.
+  intros p e m0 which ip fr seg inp be rep dir n s bw o data pos Hf Hs Hi Hbw Ho Hpop Hn F.
+  assert (G0 : is_format READ_NBIT) by (unfold is_format; cbn [In]; intuition congruence).
+  rewrite (read_prefix p e m0 which ip fr seg inp Hf Hs Hi READ_NBIT be rep n s G0 Hpop Hn).
+  change (READ_NBIT =? READ_NBIT) with true. change ((READ_NBIT =? READ_VARINT) || (READ_NBIT =? READ_ZIGZAG)) with false.
+  cbv iota.
+  rewrite (fetch_at p (after m0 s (m_inpos m0) (m_outs m0) ((which, ip + 1) :: fr) (m_err m0)) which (ip + 1) fr seg bw eq_refl Hs Hbw).
+  assert (Hm4 : exists m4, (if dir then match fetch p (set_frames (after m0 s (m_inpos m0) (m_outs m0) ((which, ip + 1) :: fr) (m_err m0))
+                                                     ((which, ip + 1 + 1) :: fr)) with
+                                        | Ok (o0, m4) => Ok (Some o0, m4) | Fault k => Fault k | OutOfFuel => OutOfFuel end
+                            else Ok (None, set_frames (after m0 s (m_inpos m0) (m_outs m0) ((which, ip + 1) :: fr) (m_err m0))
+                                                      ((which, ip + 1 + 1) :: fr)))
+                           = Ok (if dir then Some o else None, m4) /\
+                           m4 = after m0 s (m_inpos m0) (m_outs m0) F (m_err m0)).
+  { subst F. destruct dir.
+    - eexists. rewrite (fetch_at p (set_frames (after m0 s (m_inpos m0) (m_outs m0) ((which, ip + 1) :: fr) (m_err m0))
+                                              ((which, ip + 1 + 1) :: fr)) which (ip + 1 + 1) fr seg o eq_refl Hs)
+        by (replace (ip + 1 + 1) with (ip + 2) by lia; auto).
+      split; [reflexivity|]. unfold after, set_frames. cbn. do 3 f_equal. lia.
+    - eexists. split; [reflexivity|]. unfold after, set_frames. cbn. do 3 f_equal. lia. }
+  destruct Hm4 as (m4 & Hm4 & Em4). rewrite Hm4. subst m4. split; [|split].
+  - intros Hb. replace ((bw <? 1) || (31 <? bw)) with true by lia. reflexivity.
+  - intros Hb H0. replace ((bw <? 1) || (31 <? bw)) with false by lia. subst n. reflexivity.
+  - intros Hb H1 Hd Hp Hl. replace ((bw <? 1) || (31 <? bw)) with false by lia. replace (n =? 0) with false by lia.
+    rewrite (input_read_beyond e (after m0 s (m_inpos m0) (m_outs m0) F (m_err m0)) inp data pos 1 Hd Hp ltac:(lia) ltac:(lia)).
+    reflexivity.
+Qed.
+
+(* 3 fields of 5 bits, least significant first, from the little-endian bit stream 255 1: 31, 15, 0 *)
+Example read_nbit_example :
+  compile 64 16 16 (bytes "input x 3 x #5bit-> stack"%string) = COk (mkp [0; 3; -131; 0; 5] [] 16) /\
+  read_bc READ_NBIT false true false = -131 /\
+  run1 (mkp [0; 3; -131; 0; 5] [] 16) [255; 1] = Ok (mkM [0; 15; 31] [] [2] [] [] [] [] true E_none).
+Proof. repeat split; vm_compute; reflexivity. Qed.
